@@ -1,7 +1,109 @@
-/- Driver entry for property C05: one request payload in, one canonical response line out. -/
+/-
+Driver for the edit-history model (C05).
+payload :  init <s|m> <atoms|-> <bonds|-> ; <op> ; <op> …
+   atoms  = elem:label:coord:charge,…        (label `-` = None; coord / charge are payload codes)
+   bonds  = i-j,…                            (positions)
+   op     = add <spec> <coord> <charge|->    | addbad <spec> | new <elem> <label|-> <coord>
+          | del <ref> | con <ref> <ref> | bond <spec> <spec> | bonds <spec>+<spec>,… | delb <bid>
+          | rmsub <ref> <ref> <label|-> | addh <atomid>:<coord>,…   (`addh -` = no hydrogen added)
+   spec   = <atomid>:<elem>:<label|->        atomid = e<n> | o<n>
+   ref    = @<atomid> | #<int> | L<label> | E<elem>
+response: `<state>` of the initial molecule, then `<out>#<state>` per op, joined by ';'
+   state  = A=<atomid>[!],…|R=<coord>,…|T=<tag>,…|Q=<charge|n>,…|U=<tag>,…|B=<bid>:<a1>:<a2>[!],…|inv=<0|1>
+            (`!` marks an object whose parent is not the molecule; T/U are the ghost tags)
+-/
 import Molli.Util.Basic
+import Molli.Model.MolEdit
 namespace Molli.Driver.C05
+open Molli.Util Molli.Model.MolEdit
 
-def handle (_payload : String) : String := "err:not-implemented"
+def parseAtomId? (s : String) : Option AtomId :=
+  match s.toList with
+  | 'e' :: r => (String.ofList r).toNat?.map .ext
+  | 'o' :: r => (String.ofList r).toNat?.map .own
+  | _ => none
+
+def parseOptNat? (s : String) : Option (Option Nat) :=
+  if s == "-" then some none else s.toNat?.map some
+
+def parseSpec? (s : String) : Option AtomSpec :=
+  match s.splitOn ":" with
+  | [a, e, l] => do
+      let a ← parseAtomId? a; let e ← e.toNat?; let l ← parseOptNat? l
+      pure { id := a, elem := e, label := l }
+  | _ => none
+
+def parseRef? (s : String) : Option Ref :=
+  match s.toList with
+  | '@' :: r => (parseAtomId? (String.ofList r)).map .obj
+  | '#' :: r => (String.ofList r).toInt?.map .idx
+  | 'L' :: r => (String.ofList r).toNat?.map .label
+  | 'E' :: r => (String.ofList r).toNat?.map .elem
+  | _ => none
+
+def parseList? {α} (f : String → Option α) (s : String) : Option (List α) :=
+  if s == "-" then some [] else (s.splitOn ",").mapM f
+
+def parseOp (s : String) : Option Op :=
+  match words s with
+  | ["add", sp, c, q] => do pure (.addAtom (← parseSpec? sp) (← c.toNat?) (← parseOptNat? q))
+  | ["addbad", sp] => do pure (.addAtomBad (← parseSpec? sp))
+  | ["new", e, l, c] => do pure (.newAtom (← e.toNat?) (← parseOptNat? l) (← c.toNat?))
+  | ["del", r] => do pure (.delAtom (← parseRef? r))
+  | ["con", r1, r2] => do pure (.connect (← parseRef? r1) (← parseRef? r2))
+  | ["bond", x, y] => do pure (.appendBond (← parseSpec? x) (← parseSpec? y))
+  | ["bonds", l] => do
+      let ps ← parseList? (fun t => match t.splitOn "+" with
+        | [x, y] => do pure ((← parseSpec? x), (← parseSpec? y))
+        | _ => none) l
+      pure (.appendBonds ps)
+  | ["delb", b] => do pure (.delBond (← b.toNat?))
+  | ["rmsub", r1, r2, l] => do pure (.removeSubstituent (← parseRef? r1) (← parseRef? r2) (← parseOptNat? l))
+  | ["addh", l] => do
+      let hs ← parseList? (fun t => match t.splitOn ":" with
+        | [a, c] => do pure ((← parseAtomId? a), (← c.toNat?))
+        | _ => none) l
+      pure (.addHydrogens hs)
+  | _ => none
+
+def parseInit (s : String) : Option Mol :=
+  match words s with
+  | ["init", k, atoms, bonds] => do
+      let k ← (if k == "s" then some Kind.structure else if k == "m" then some Kind.molecule else none)
+      let specs ← parseList? (fun t => match t.splitOn ":" with
+        | [e, l, c, q] => do
+            pure ({ elem := (← e.toNat?), label := (← parseOptNat? l), coord := (← c.toNat?), charge := (← q.toNat?) } : LoadAtom)
+        | _ => none) atoms
+      let bs ← parseList? (fun t => match t.splitOn "-" with
+        | [i, j] => do pure ((← i.toNat?), (← j.toNat?))
+        | _ => none) bonds
+      pure (loaded k specs bs)
+  | _ => none
+
+def showId : AtomId → String
+  | .ext n => s!"e{n}"
+  | .own n => s!"o{n}"
+
+def showState (m : Mol) : String :=
+  let a := ",".intercalate (m.atoms.map (fun x => showId x.id ++ (if x.parentOk then "" else "!")))
+  let r := ",".intercalate (m.rows.map (fun x => toString x.2))
+  let t := ",".intercalate (m.rows.map (fun x => showId x.1))
+  let q := ",".intercalate (m.charges.map (fun x => match x.2 with | some v => toString v | none => "n"))
+  let u := ",".intercalate (m.charges.map (fun x => showId x.1))
+  let b := ",".intercalate (m.bonds.map (fun x =>
+      s!"{x.id}:{showId x.a1}:{showId x.a2}" ++ (if x.parentOk then "" else "!")))
+  s!"A={a}|R={r}|T={t}|Q={q}|U={u}|B={b}|inv={if invB m then 1 else 0}"
+
+def handle (payload : String) : String :=
+  match (payload.splitOn ";").filter (fun s => (words s) ≠ []) with
+  | [] => "err:bad-request"
+  | i :: opsS =>
+    match parseInit i, opsS.mapM parseOp with
+    | some m0, some ops =>
+      let (_, outs) := ops.foldl (fun (acc : Mol × List String) o =>
+          let (m', out) := step acc.1 o
+          (m', ((if out == .ok then "ok" else "err") ++ "#" ++ showState m') :: acc.2)) (m0, [showState m0])
+      ";".intercalate outs.reverse
+    | _, _ => "err:bad-request"
 
 end Molli.Driver.C05
